@@ -179,6 +179,15 @@ func main() {
 		cleanupScratch()
 		pprof.StopCPUProfile()
 		os.Exit(code)
+	case "rxp":
+		// gv rxp PATTERN LANGUAGE : run the regex-capture decider on literals
+		if len(os.Args) < 4 {
+			fmt.Fprintln(os.Stderr, "usage: gv rxp PATTERN LANGUAGE")
+			os.Exit(2)
+		}
+		r := decideRxp(os.Args[2], os.Args[3])
+		fmt.Printf("ok=%v states=%d classes=%d err=%q\nword=%q\nreason=%s\nexpected=%q\n", r.OK, r.States, r.Classes, r.Err, r.Word, r.Reason, r.Expected)
+		os.Exit(0)
 	case "replay":
 		code := cmdReplay(os.Args[2:])
 		cleanupScratch()
